@@ -320,9 +320,9 @@ def _pwl_weights(prog, res):
     lo = hi = None
     lead = None
     for st in ast.walk(f.node):
-      if isinstance(st, ast.Assign) and isinstance(st.value, ast.BinOp) and \
-          isinstance(st.value.op, ast.Div):
-        ratio = norm_text(st.value).replace(' ', '')
+      if isinstance(st, ast.BinOp) and isinstance(st.op, ast.Div):
+        # the ratio, wherever it is written (own statement or nested)
+        ratio = norm_text(st).replace(' ', '')
       for c in ast.walk(st) if isinstance(st, (ast.Assign, ast.Return)) \
           else ():
         if not isinstance(c, ast.Call):
